@@ -231,6 +231,11 @@ func twinsC08(src *choice.Src, w *World, envReads []string) (tw []*World, dims [
 	}
 	{
 		t := w.Clone()
+		t.GoSeed = seed64(src, "twin.goseed") | 1
+		add("goroutine-schedule", t)
+	}
+	{
+		t := w.Clone()
 		t.ArgStyle = 1 + src.Draw("twin.argstyle", 3)
 		add("command-line-spelling", t)
 	}
